@@ -23,7 +23,7 @@ EXPLANATION = (
     "SourcedMessage, and data dependence of offsets yielded from compressed wrappers. Each rule is a necessary "
     "condition of the delivery property; whole-history gap freedom is not decided."
 )
-SHARED = [('C13', ['R9'], 'the processor is never invoked from a continuation that runs because stop() cancelled a Deferred (previous result still pending)'), ('C05', ['R4'], 'compressed wrappers are decoded completely and by the right codec'), ('C12', ['R3', 'R7'], 'a partial trailing message is never skipped: too-small signal, buffer grows, same offset refetched'), ('C14', ['R4', 'R5'], 'the offset-reset policy is the only discontinuity; buffer growth refetches the same offset'), ('C03', ['R2'], 'a cancelled block is not followed by another invocation: stop() must not feed the next block')]
+SHARED = [('C13', ['R9'], 'the processor is never invoked from a continuation that runs because stop() cancelled a Deferred (previous result still pending)'), ('C05', ['R4'], 'compressed wrappers are decoded completely and by the right codec'), ('C12', ['R3', 'R7'], 'a partial trailing message is never skipped: too-small signal, buffer grows, same offset refetched'), ('C14', ['R4', 'R5', 'R7'], 'the offset-reset policy is the only discontinuity; buffer growth refetches the same offset'), ('C03', ['R2'], 'a cancelled block is not followed by another invocation: stop() must not feed the next block')]
 ASSUMPTIONS = [
     "Twisted: a failed/pending Deferred yielded in an inlineCallbacks generator suspends the generator",
     "KafkaClient.send_* return Deferreds; the broker's log order is ground truth (not modelled)",
@@ -429,11 +429,11 @@ MUTANTS = [
     {"id": "advance-no-plus-one", "file": "consumer.py", "old": "self._fetch_offset = message.offset + 1",
      "new": "self._fetch_offset = message.offset", "expect": "C02.R6"},
     {"id": "parked-clears-request", "file": "consumer.py",
-     "old": "            self._msg_block_d.addCallback(lambda _: self._handle_fetch_response(responses))\n            return",
-     "new": "            self._msg_block_d.addCallback(lambda _: self._handle_fetch_response(responses))\n            self._request_d = None\n            return",
+     "old": "            self._msg_block_d.addErrback(self._handle_fetch_error)\n            return",
+     "new": "            self._msg_block_d.addErrback(self._handle_fetch_error)\n            self._request_d = None\n            return",
      "expect": "C02.R4"},
     {"id": "parked-dropped", "file": "consumer.py",
-     "old": "            self._msg_block_d.addCallback(lambda _: self._handle_fetch_response(responses))\n            return",
+     "old": "            self._msg_block_d.addCallback(lambda _: self._handle_fetch_response(responses))\n            self._msg_block_d.addErrback(self._handle_fetch_error)\n            return",
      "new": "            return", "expect": "C02.R4"},
     {"id": "no-yield", "file": "consumer.py", "old": "                yield d\n                if self._stopping or self._start_d is None or self._start_d.called:",
      "new": "                if self._stopping or self._start_d is None or self._start_d.called:", "expect": "C02.R2"},
